@@ -264,7 +264,10 @@ func (p *Peer) checkHeader(h Header) error {
 	if h.SenderTag < MinInstanceTag {
 		return reject("sender-tag", "invalid sender instance tag %#x", h.SenderTag)
 	}
-	if h.ReceiverTag != p.OurTag && !(h.ReceiverTag == 0 && h.Type == TypeDHCommit) {
+	// Spec: "discard the message if the recipient's own instance tag does not
+	// match the listed receiver instance tag and the listed receiver instance
+	// tag is not zero" - a zero receiver tag is acceptable on any message.
+	if h.ReceiverTag != p.OurTag && h.ReceiverTag != 0 {
 		return reject("receiver-tag", "receiver instance tag %#x is not ours (%#x)", h.ReceiverTag, p.OurTag)
 	}
 	if p.TheirTag != 0 && h.SenderTag != p.TheirTag {
